@@ -446,6 +446,10 @@ class Interp:
             return R("starred", of=self.eval(e.value, st))
         if isinstance(e, ast.Yield):
             v = self.eval(e.value, st) if e.value is not None else K(None)
+            if st.pending is None and getattr(self, "yield_handler", None) is not None:
+                # a @contextmanager generator being interpreted for a `with` statement: the body of the with runs here
+                self.yield_handler(v, st)
+                return K(None)
             if st.pending is None:
                 st.effects.append(("yield", st.freeze(v)))
             return U("sent value")
@@ -757,7 +761,10 @@ class Interp:
             return None
         if fname == "enumerate" and 1 <= len(args) <= 2:
             seq = self.iterate(args[0], st)
-            start = args[1].v if len(args) == 2 and isinstance(args[1], K) else 0
+            sv = args[1] if len(args) == 2 else kwargs.get("start", K(0))
+            if not (isinstance(sv, K) and isinstance(sv.v, int)):
+                return None
+            start = sv.v
             if seq is not None:
                 return K(tuple(K((K(i + start), x)) for i, x in enumerate(seq)))
             return None
@@ -1231,6 +1238,21 @@ class Interp:
                 res = fin
             return res
         if isinstance(s, ast.With):
+            if len(s.items) >= 1 and getattr(self, "on_with", None) is not None:
+                cm0 = self.eval(s.items[0].context_expr, st)
+                if isinstance(cm0, R) and cm0.kind == "ctxmgr":
+                    inner = s if len(s.items) == 1 else ast.With(items=s.items[1:], body=s.body)
+                    body = s.body if len(s.items) == 1 else [ast.copy_location(inner, s)]
+                    return self.on_with(cm0, s.items[0].optional_vars, body, st)
+            if len(s.items) == 1 and isinstance(s.items[0].context_expr, ast.Call) and (dotted(s.items[0].context_expr.func) or "").split(".")[-1] == "suppress" \
+                    and (dotted(s.items[0].context_expr.func) or "") in ("suppress", "contextlib.suppress"):
+                # contextlib.suppress(E, ...): an exception of one of these classes raised by the body ends the block quietly
+                names = [(dotted(a) or norm(a)).split(".")[-1] for a in s.items[0].context_expr.args]
+                outs_s = self.run(s.body, st)
+                for o in outs_s:
+                    if o.term is not None and o.term[0] == "raise" and any(exc_is(str(o.term[1]), n, self.exc_parents) for n in names):
+                        o.term = None
+                return outs_s
             for it in s.items:
                 cm = self.eval(it.context_expr, st)
                 st.effects.append(("with-enter", norm(it.context_expr), cm))
